@@ -18,6 +18,7 @@ import (
 	"go/ast"
 	"go/parser"
 	"go/token"
+	"go/types"
 	"os"
 	"path/filepath"
 	"sort"
@@ -26,7 +27,18 @@ import (
 
 // ---------------------------------------------------------------- configuration
 
-var sourceFiles = []string{"pkg/llrp/reader.go", "internal/driver/device.go", "internal/driver/driver.go"}
+var sourceFiles = []string{"pkg/llrp/reader.go", "internal/driver/device.go", "internal/driver/driver.go", "internal/retry/retry.go"}
+
+// Package-level variables of the parsed files are locations too ("<package>.<name>"): an assignment is a
+// write, and so is a method call on a variable of a type from another package that is not known to be safe for
+// concurrent use (e.g. a *rand.Rand made by rand.New): the method may mutate what the variable refers to.
+// sync.* variables are locks, not locations. Initialisation at declaration happens-before main (no entry);
+// an access inside a sync.Once.Do closure counts as construction (PCtor), everything else as PShared.
+// Every role is foreign to a package-level variable (any number of goroutines may reach it).
+type globalInfo struct {
+	pkg, name string
+	typ, init ast.Expr
+}
 
 // tracked structs; a non-nil field list restricts tracking to those fields
 var tracked = map[string][]string{
@@ -118,6 +130,8 @@ type analyzer struct {
 	funcs      map[string]*funcInfo
 	byName     map[string][]*funcInfo
 	pkgVars    map[string]ast.Expr
+	globals    map[string]map[string]*globalInfo // dir -> name -> info
+	pkgDir     map[string]string                 // package name -> dir
 	accs       []accessT
 	accSeen    map[string]bool
 	roles      map[string]*roleT
@@ -247,6 +261,7 @@ type walker struct {
 	inLoop   int
 	fname    string
 	marks    map[ast.Expr]string
+	inOnce   bool // inside a closure run by sync.Once.Do
 }
 
 func canonLocks(l []lockT) string {
@@ -293,6 +308,86 @@ func (w *walker) emit(sn, field, kind string, pos token.Pos) {
 }
 
 func (w *walker) emitAlt(sn, field, kind string, pos, alt token.Pos) {
+	w.emitFull(sn, field, kind, pos, alt, w.effPhase())
+}
+
+// globalOf: is this expression a reference to a package-level variable of a parsed file?
+func (w *walker) globalOf(e ast.Expr) *globalInfo {
+	switch x := e.(type) {
+	case *ast.Ident:
+		if _, local := w.env[x.Name]; local {
+			return nil
+		}
+		return w.an.globals[w.file.dir][x.Name]
+	case *ast.SelectorExpr:
+		if id, ok := x.X.(*ast.Ident); ok && w.isPkg(id) {
+			if dir, ok := w.an.pkgDir[id.Name]; ok {
+				return w.an.globals[dir][x.Sel.Name]
+			}
+		}
+	case *ast.ParenExpr:
+		return w.globalOf(x.X)
+	}
+	return nil
+}
+
+func (g *globalInfo) typeExpr() ast.Expr {
+	if g.typ != nil {
+		return g.typ
+	}
+	switch i := g.init.(type) {
+	case *ast.CompositeLit:
+		return i.Type
+	case *ast.UnaryExpr:
+		if cl, ok := i.X.(*ast.CompositeLit); ok {
+			return cl.Type
+		}
+	}
+	return nil
+}
+
+func (g *globalInfo) isLock() bool { return isSyncType(g.typeExpr()) }
+
+// mutableByMethods: may a method call on the variable change shared state?
+func (w *walker) mutableByMethods(g *globalInfo) bool {
+	t := g.typeExpr()
+	if t != nil {
+		if isSyncType(t) || qualifier(t) == "atomic" {
+			return false
+		}
+		if qualifier(t) == "" && w.an.structs[structName(t)] != nil {
+			return false // a type of ours: its methods are analysed themselves
+		}
+		if w.an.ifaces[structName(t)] {
+			return false
+		}
+	}
+	if c, ok := g.init.(*ast.CallExpr); ok {
+		if se, ok := c.Fun.(*ast.SelectorExpr); ok {
+			if id, ok := se.X.(*ast.Ident); ok && (id.Name == "errors" || id.Name == "fmt") {
+				return false // error values are immutable
+			}
+		}
+	}
+	return true
+}
+
+func (w *walker) emitGlobal(g *globalInfo, e ast.Expr) {
+	if g.isLock() {
+		return
+	}
+	k := w.marks[e]
+	if k == "" {
+		k = "KRead"
+	}
+	ph := "PShared"
+	if w.inOnce {
+		ph = "PCtor"
+	}
+	w.emitFull(g.pkg, g.name, k, e.Pos(), token.NoPos, ph)
+}
+
+func (w *walker) emitFull(sn, field, kind string, pos, alt token.Pos, phase string) {
 	role := w.role
 	if homeOf(role) != sn {
 		role = sn + "/foreign*"
@@ -300,7 +395,7 @@ func (w *walker) emitAlt(sn, field, kind string, pos, alt token.Pos) {
 	w.an.role(role, "")
 	site, file, line := w.site(pos)
 	locks := canonLocks(w.held)
-	a := accessT{Loc: sn + "." + field, Kind: kind, Role: role, Phase: w.effPhase(), Site: site, File: file, Line: line, Func: w.fname}
+	a := accessT{Loc: sn + "." + field, Kind: kind, Role: role, Phase: phase, Site: site, File: file, Line: line, Func: w.fname}
 	if locks != "" {
 		a.Locks = strings.Split(locks, ",")
 	}
@@ -321,6 +416,9 @@ func (w *walker) typeOf(e ast.Expr) ast.Expr {
 	case *ast.Ident:
 		if t, ok := w.env[x.Name]; ok {
 			return t
+		}
+		if g := w.an.globals[w.file.dir][x.Name]; g != nil {
+			return g.typeExpr()
 		}
 		if t, ok := w.an.pkgVars[x.Name]; ok {
 			return t
@@ -354,6 +452,9 @@ func (w *walker) typeOf(e ast.Expr) ast.Expr {
 		return nil
 	case *ast.SelectorExpr:
 		if id, ok := x.X.(*ast.Ident); ok && w.isPkg(id) {
+			if g := w.globalOf(x); g != nil {
+				return g.typeExpr()
+			}
 			return nil
 		}
 		sn := structName(w.typeOf(x.X))
@@ -473,11 +574,20 @@ func (w *walker) mark(e ast.Expr, kind string) {
 		case *ast.SliceExpr:
 			e = x.X
 		case *ast.SelectorExpr:
+			if g := w.globalOf(x); g != nil {
+				w.marks[x] = kind
+				return
+			}
 			if _, _, ok := w.trackedSel(x); ok {
 				w.marks[x] = kind
 				return
 			}
 			e = x.X
+		case *ast.Ident:
+			if g := w.globalOf(x); g != nil {
+				w.marks[x] = kind
+			}
+			return
 		default:
 			return
 		}
@@ -502,6 +612,12 @@ func (w *walker) lockOf(c *ast.CallExpr) (string, string, bool) {
 	}
 	op := f.Sel.Name
 	if op != "Lock" && op != "Unlock" && op != "RLock" && op != "RUnlock" {
+		return "", "", false
+	}
+	if g := w.globalOf(f.X); g != nil {
+		if g.isLock() {
+			return g.pkg + "." + g.name, op, true
+		}
 		return "", "", false
 	}
 	mu, ok := f.X.(*ast.SelectorExpr)
@@ -688,6 +804,11 @@ func (w *walker) stmt(s ast.Stmt) {
 		}
 		for _, l := range x.Lhs {
 			if id, ok := l.(*ast.Ident); ok {
+				if g := w.globalOf(id); g != nil {
+					w.mark(l, "KWrite")
+					w.expr(l)
+					continue
+				}
 				if _, known := w.env[id.Name]; known && len(x.Lhs) == len(x.Rhs) {
 					// plain re-assignment of a local: refresh its type if we learn one
 					for i := range x.Lhs {
@@ -866,7 +987,7 @@ func (w *walker) sub(fl *ast.FuncLit, role, phase string, held []lockT, name str
 	}
 	s := &walker{an: w.an, fn: w.fn, file: w.file, env: env, role: role, phase: phase,
 		held: append([]lockT(nil), held...), fname: name, marks: map[ast.Expr]string{},
-		hasGo: containsGo(fl.Body), inLoop: 0}
+		hasGo: containsGo(fl.Body), inLoop: 0, inOnce: w.inOnce}
 	bindParams(s.env, fl.Type)
 	return s
 }
@@ -999,6 +1120,11 @@ func (w *walker) call(c *ast.CallExpr, argsDone bool) {
 			}
 		}
 	}
+	if se, ok := c.Fun.(*ast.SelectorExpr); ok {
+		if g := w.globalOf(se.X); g != nil && !g.isLock() && w.mutableByMethods(g) {
+			w.mark(se.X, "KWrite")
+		}
+	}
 	if id, ok := c.Fun.(*ast.Ident); ok && len(c.Args) > 0 {
 		switch id.Name {
 		case "close", "len", "cap":
@@ -1030,6 +1156,9 @@ func (w *walker) call(c *ast.CallExpr, argsDone bool) {
 			if fl, ok := a.(*ast.FuncLit); ok {
 				if syncCombinators[name] {
 					s := w.sub(fl, w.role, w.effPhase(), w.held, w.fname)
+					if name == "Do" {
+						s.inOnce = true
+					}
 					s.inLoop = w.inLoop + 1
 					s.fn = w.fn
 					if s.hasGo {
@@ -1117,6 +1246,10 @@ func (w *walker) expr(e ast.Expr) {
 	switch x := e.(type) {
 	case nil:
 	case *ast.SelectorExpr:
+		if g := w.globalOf(x); g != nil {
+			w.emitGlobal(g, x)
+			return
+		}
 		if sn, f, ok := w.trackedSel(x); ok {
 			k := w.marks[x]
 			if k == "" {
@@ -1175,7 +1308,11 @@ func (w *walker) expr(e ast.Expr) {
 	case *ast.KeyValueExpr:
 		w.expr(x.Key)
 		w.expr(x.Value)
-	case *ast.Ident, *ast.BasicLit, *ast.ArrayType, *ast.MapType, *ast.ChanType, *ast.FuncType,
+	case *ast.Ident:
+		if g := w.globalOf(x); g != nil {
+			w.emitGlobal(g, x)
+		}
+	case *ast.BasicLit, *ast.ArrayType, *ast.MapType, *ast.ChanType, *ast.FuncType,
 		*ast.InterfaceType, *ast.StructType, *ast.Ellipsis:
 	default:
 		p := w.an.fset.Position(e.Pos())
@@ -1233,6 +1370,15 @@ func (an *analyzer) load(repo string) error {
 					case *ast.ValueSpec:
 						if x.Tok == token.VAR {
 							for i, n := range s.Names {
+								g := &globalInfo{pkg: f.Name.Name, name: n.Name, typ: s.Type}
+								if i < len(s.Values) {
+									g.init = s.Values[i]
+								}
+								if an.globals[fi.dir] == nil {
+									an.globals[fi.dir] = map[string]*globalInfo{}
+								}
+								an.globals[fi.dir][n.Name] = g
+								an.pkgDir[f.Name.Name] = fi.dir
 								if s.Type != nil {
 									an.pkgVars[n.Name] = s.Type
 								} else if i < len(s.Values) {
@@ -1291,6 +1437,7 @@ func main() {
 
 	an := &analyzer{fset: token.NewFileSet(), structs: map[string]*structInfo{}, ifaces: map[string]bool{},
 		funcs: map[string]*funcInfo{}, byName: map[string][]*funcInfo{}, pkgVars: map[string]ast.Expr{},
+		globals: map[string]map[string]*globalInfo{}, pkgDir: map[string]string{},
 		accSeen: map[string]bool{}, roles: map[string]*roleT{}, unresSeen: map[string]bool{}, visited: map[string]bool{}}
 	if err := an.load(*repo); err != nil {
 		fmt.Fprintln(os.Stderr, "go-access:", err)
@@ -1379,6 +1526,13 @@ func main() {
 			}
 		}
 	}
+	for _, gs := range an.globals {
+		for _, g := range gs {
+			if !g.isLock() {
+				fields = append(fields, g.pkg+"."+g.name)
+			}
+		}
+	}
 	sort.Strings(fields)
 	if an.unresolved == nil {
 		an.unresolved = []string{}
@@ -1387,7 +1541,7 @@ func main() {
 
 	if *jout != "" {
 		b, _ := json.MarshalIndent(map[string]interface{}{"roles": roles, "accesses": an.accs,
-			"unresolved": an.unresolved, "fields": fields, "files": sourceFiles, "stale_reads": staleScan(an)}, "", " ")
+			"unresolved": an.unresolved, "fields": fields, "files": sourceFiles, "stale_reads": staleScan(an), "check_then_act": ctaScan(an)}, "", " ")
 		if err := os.WriteFile(*jout, b, 0o644); err != nil {
 			fmt.Fprintln(os.Stderr, "go-access:", err)
 			os.Exit(2)
@@ -1786,6 +1940,127 @@ func staleScan(an *analyzer) []staleT {
 				seen[key] = true
 				out = append(out, staleT{Field: st.field, Func: fi.key, File: fi.file.base, Store: line(st.pos),
 					Block: line(blk), Use: line(u.pos), Var: st.v})
+			}
+		}
+	}
+	return out
+}
+
+// ---------------------------------------------------------------- check-then-act on atomics
+//
+// Atomic operations never race with each other, so neither the table nor the race detector objects to
+//     if atomic.Load(&x) != 0 { return }; atomic.Store(&x, 1); <act once>
+// but two goroutines can both pass the Load before either Stores: the "once" is lost. ctaScan reports every
+// function in which the same variable is atomically Loaded and later atomically Stored while the function has no
+// read-modify-write (CompareAndSwap / Swap / Add) on it. sync/atomic functions and atomic.* typed values.
+
+type ctaT struct {
+	Loc   string `json:"loc"`
+	Func  string `json:"func"`
+	File  string `json:"file"`
+	Load  int    `json:"load_line"`
+	Store int    `json:"store_line"`
+}
+
+func ctaScan(an *analyzer) []ctaT {
+	out := []ctaT{}
+	var keys []string
+	for k := range an.funcs {
+		keys = append(keys, k)
+	}
+	sort.Strings(keys)
+	for _, k := range keys {
+		fi := an.funcs[k]
+		w := &walker{an: an, fn: fi, file: fi.file, env: map[string]ast.Expr{}, marks: map[ast.Expr]string{}, fname: fi.key}
+		if fi.decl.Recv != nil {
+			for _, f := range fi.decl.Recv.List {
+				for _, n := range f.Names {
+					w.env[n.Name] = f.Type
+				}
+			}
+		}
+		bindParams(w.env, fi.decl.Type)
+		type opT struct {
+			kind string
+			pos  token.Pos
+			loc  string
+		}
+		ops := map[string][]opT{}
+		classify := func(name string) string {
+			switch {
+			case strings.HasPrefix(name, "Load"):
+				return "load"
+			case strings.HasPrefix(name, "Store"):
+				return "store"
+			case strings.HasPrefix(name, "CompareAndSwap"), strings.HasPrefix(name, "Swap"), strings.HasPrefix(name, "Add"),
+				strings.HasPrefix(name, "And"), strings.HasPrefix(name, "Or"):
+				return "rmw"
+			}
+			return ""
+		}
+		locOf := func(e ast.Expr) string {
+			if se, ok := e.(*ast.SelectorExpr); ok {
+				if sn, f, ok := w.trackedSel(se); ok {
+					return sn + "." + f
+				}
+			}
+			if g := w.globalOf(e); g != nil {
+				return g.pkg + "." + g.name
+			}
+			return types.ExprString(e)
+		}
+		ast.Inspect(fi.decl.Body, func(n ast.Node) bool {
+			c, ok := n.(*ast.CallExpr)
+			if !ok {
+				return true
+			}
+			se, ok := c.Fun.(*ast.SelectorExpr)
+			if !ok {
+				return true
+			}
+			kind := classify(se.Sel.Name)
+			if kind == "" {
+				return true
+			}
+			if id, ok := se.X.(*ast.Ident); ok && id.Name == "atomic" && w.isPkg(id) && len(c.Args) > 0 {
+				if u, ok := c.Args[0].(*ast.UnaryExpr); ok && u.Op == token.AND {
+					key := types.ExprString(u.X)
+					ops[key] = append(ops[key], opT{kind, c.Pos(), locOf(u.X)})
+				}
+				return true
+			}
+			// typed atomics: x.f.Load() where f's type comes from sync/atomic
+			if qualifier(w.typeOf(se.X)) == "atomic" {
+				key := types.ExprString(se.X)
+				ops[key] = append(ops[key], opT{kind, c.Pos(), locOf(se.X)})
+			}
+			return true
+		})
+		var ks []string
+		for key := range ops {
+			ks = append(ks, key)
+		}
+		sort.Strings(ks)
+		for _, key := range ks {
+			var load, store token.Pos
+			rmw := false
+			for _, o := range ops[key] {
+				switch o.kind {
+				case "load":
+					if load == token.NoPos {
+						load = o.pos
+					}
+				case "store":
+					if load != token.NoPos && o.pos > load && store == token.NoPos {
+						store = o.pos
+					}
+				case "rmw":
+					rmw = true
+				}
+			}
+			if load != token.NoPos && store != token.NoPos && !rmw {
+				out = append(out, ctaT{Loc: ops[key][0].loc, Func: fi.key, File: fi.file.base,
+					Load: an.fset.Position(load).Line, Store: an.fset.Position(store).Line})
 			}
 		}
 	}
